@@ -5,6 +5,7 @@ import (
 	"encoding/asn1"
 	"encoding/hex"
 	"fmt"
+	"slices"
 	"testing"
 
 	"go.brendoncarroll.net/p2p"
@@ -32,7 +33,8 @@ func genOID(t *rapid.T, label string) []int {
 		maxSecond = 1 << 20
 	}
 	arcs := []int{first, rapid.IntRange(0, maxSecond).Draw(t, label+"a1")}
-	n := rapid.IntRange(0, 6).Draw(t, label+"n")
+	// mostly short identifiers, sometimes long ones (private-enterprise identifiers run to 20 arcs and more)
+	n := rapid.OneOf(rapid.IntRange(0, 6), rapid.IntRange(0, 6), rapid.IntRange(7, 30)).Draw(t, label+"n")
 	for i := 0; i < n; i++ {
 		arcs = append(arcs, rapid.OneOf(rapid.IntRange(0, 200), rapid.SampledFrom([]int{0, 127, 128, 16383, 16384, 1<<31 - 1}), rapid.IntRange(0, 1<<31-1)).Draw(t, label+"arc"))
 	}
@@ -51,14 +53,26 @@ func genKey(t *rapid.T, label string) x509.PublicKey {
 	case 3:
 		data = bytes.Repeat([]byte{rapid.SampledFrom([]byte{0, 0xff, 0x80, 1}).Draw(t, label+"fill")}, rapid.IntRange(0, 140).Draw(t, label+"len"))
 	}
-	return x509.PublicKey{Algorithm: oids.New(genOID(t, label)...), Data: data}
+	arcs := genOID(t, label)
+	k := x509.PublicKey{Algorithm: oids.New(arcs...), Data: data}
+	// lossless: the identifier reports the arcs it was made from, and the key's encoding carries the identifier's
+	// DER form as encoding/asn1 (an independent encoder) produces it
+	if got := k.Algorithm.ASN1(); !slices.Equal([]int(got), arcs) {
+		t.Fatalf("identifier made from arcs %v reports arcs %v", arcs, got)
+	}
+	if der, err := asn1.Marshal(asn1.ObjectIdentifier(arcs)); err == nil {
+		if enc := x509.MarshalPublicKey(nil, &k); !bytes.Contains(enc, der) {
+			t.Fatalf("encoding of a key with algorithm %v does not contain the identifier's DER form %x: %x", arcs, der, enc)
+		}
+	}
+	return k
 }
 
 func keyStr(k x509.PublicKey) string { return fmt.Sprintf("%v:%s", k.Algorithm, hx(k.Data)) }
 
 func TestC17KeyRoundTrip(t *testing.T) {
 	const sub = "C17.key_roundtrip"
-	ev.Rule(sub, "rapid: algorithm identifiers DER can carry (2-8 arcs, first 0-2, arcs up to 2^31-1) and key bodies of 0-600 bytes (random, constant fill, 32 bytes); pairs that differ in one byte, one arc, or only in length. Oracles: Parse(Marshal(k)) == k; re-marshal is byte-identical; EqualPublicKeys(a,b) iff Marshal(a)==Marshal(b); private-key codec likewise; both default fingerprinters are functions of (algorithm, body) only. non-trivial = identifier other than Ed25519 or body length != 32; distinct by key")
+	ev.Rule(sub, "rapid: algorithm identifiers DER can carry (2-32 arcs, first 0-2, arcs up to 2^31-1) and key bodies of 0-600 bytes (random, constant fill, 32 bytes); pairs that differ in one byte, one arc, or only in length. Oracles: Parse(Marshal(k)) == k; re-marshal is byte-identical; EqualPublicKeys(a,b) iff Marshal(a)==Marshal(b); private-key codec likewise; both default fingerprinters are functions of (algorithm, body) only. non-trivial = identifier other than Ed25519 or body length != 32; distinct by key")
 	rapid.Check(t, func(t *rapid.T) {
 		a := genKey(t, "a")
 		ev.Eval(sub)
